@@ -255,6 +255,16 @@ struct Emitter {
                 child("fn", CE->getCallee());
             }
             for (const Expr* A : CE->arguments()) child("arg", A);
+            if (F) {
+                // arguments bound to a non-const lvalue reference parameter: the callee may write the caller's object
+                json::Array mut;
+                unsigned off = (isa<CXXOperatorCallExpr>(S) && isa<CXXMethodDecl>(F)) ? 1 : 0;
+                for (unsigned i = 0; i < F->getNumParams() && i + off < CE->getNumArgs(); i++) {
+                    QualType T = F->getParamDecl(i)->getType();
+                    if (T->isLValueReferenceType() && !T.getNonReferenceType().isConstQualified()) mut.push_back((int64_t)(i + off));
+                }
+                if (!mut.empty()) O["mutargs"] = std::move(mut);
+            }
         } else if (auto* B = dyn_cast<BinaryOperator>(S)) {
             O["op"] = B->getOpcodeStr().str();
             child("lhs", B->getLHS());
